@@ -1217,8 +1217,55 @@ def gen_filter_candset(g, kind=None):
     return op
 
 
+def gen_bag_overlap_pair(g):
+    """OverlapFilter.filter_pair with a *bag* tokenizer on strings with
+    repeated tokens, the overlap size placed between the number of distinct
+    shared tokens and the count with multiplicity: filter_pair's overlap is the
+    number of distinct shared tokens (utils.simfunctions.overlap turns lists
+    into sets)."""
+    rng = g.rng
+    name, tspec = pick_tok(g, 'word', False)
+    sep = ' '
+    if tspec['kind'] == 'delim':
+        sep = tspec['delims'][0]
+    k = rng.randint(1, 4)
+    toks = list(dict.fromkeys(zipf_pick(rng, g.alphabet, g.skew)
+                              for _ in range(k + 3)))[:k] or ['a']
+    lt = list(toks)
+    for _ in range(rng.randint(1, 3)):
+        lt.insert(rng.randint(0, len(lt)), rng.choice(toks))
+    x = rng.random()
+    if x < 0.4:
+        rt = list(lt)                           # the very same string
+    else:
+        rt = [rng.choice(toks) for _ in range(rng.randint(1, 3))]
+        rt += [rt[0]] * rng.randint(1, 2)       # a shared token, repeated
+        if rng.random() < 0.5:
+            rt.append('zq')
+        rng.shuffle(rt)
+    o = len(set(lt) & set(rt))
+    spec = {'kind': 'OverlapFilter', 'tokenizer': name,
+            'threshold': max(1, o + rng.choice([0, 1, 1, 2])),
+            'comp_op': rng.choice(['>=', '>=', '>', '=']),
+            'allow_missing': rng.random() < 0.3, '_used': True}
+    fname = 'F%d' % len(g.filters)
+    g.case['filters'][fname] = spec
+    g.filters.append((fname, spec))
+    l, r = pick_tables(g)
+    ls, rs = sep.join(lt), sep.join(rt)
+    if rng.random() < 0.5:
+        ls, rs = rs, ls
+    op = {'op': 'filter_pair', 'filter': fname, 'ls': ls, 'rs': rs,
+          'l': l['name'], 'r': r['name']}
+    if rng.random() < g.prof['twin']:
+        op['twin'] = True
+    return op
+
+
 def gen_filter_pair(g, kind=None):
     rng = g.rng
+    if kind == 'OverlapFilter' and rng.random() < 0.3:
+        return gen_bag_overlap_pair(g)
     fname, fspec = get_filter(g, kind)
     l, r = pick_tables(g)
     la, ra = attrs_for_tok(g, fspec['tokenizer'], l, r)
